@@ -69,3 +69,52 @@ PROPS['C18'] = dict(
             'nor the test-suite uses; Kani has no model of the intrinsics',
     assumptions=['little-endian x86_64 target (as compiled by Kani); default build, no BMI2'],
 )
+
+# ------------------------------------------------------------------------------------------- C16
+_c16 = [
+    H('c16_bsd', 'k_c16_bsd();', timeout=300, inputs=[('r', 'f64')], replay='c16_bsd',
+      covers=['r exactly a table entry', 'negative r', 'NaN', 'tiny r'], domain='all 2^64 doubles r (incl. NaN, infinities, negatives)'),
+    H('c16_monotone', 'k_c16_monotone();', timeout=120, inputs=[('k', 'u8')], replay='c16_monotone',
+      domain='all 29 adjacent table pairs'),
+    H('c16_guard', 'k_c16_guard();', timeout=120, should_panic=True, inputs=[('r', 'f64')], replay='c16_guard',
+      covers=['NaN refused'], never=['guard bypassed'], domain='all doubles refused by has_best_starting_depth'),
+]
+for _d in range(30):
+    _c16.append(H('c16_depth_%d' % _d, 'k_c16_each_depth(%d);' % _d, tiers=Q if _d in (0, 1, 15, 28, 29) else T, timeout=120,
+                  inputs=[('r', 'f64')], replay='c16_bsd', covers=['interval non empty'],
+                  domain='all doubles in [limit(%d+1), limit(%d))' % (_d, _d)))
+PROPS['C16'] = dict(
+    inject=[dict(host='src/lib.rs', mod='verif_c16', parts=['props/c16.rs', 'kani/c16.rs'])],
+    harnesses=_c16,
+    functions=['has_best_starting_depth', 'best_starting_depth', 'SMALLER_EDGE2OPEDGE_DIST'],
+    bounds={'all': 'every IEEE double r; no loops'},
+    outside='NOT decided: that largest_center_to_vertex_distance* dominate the true distances and that a cone of radius r fits in 9 cells '
+            'at the returned depth (true spherical trigonometry, f64 %% f64: outside the reach of a bit-precise solver, DESIGN.md 5 C16)',
+    assumptions=['the documented 30-entry table (copied into the oracle) is the specification of the limits'],
+)
+
+# ------------------------------------------------------------------------------------------- C04
+_c04 = []
+for _d in range(30):
+    tiers = Q if _d <= 3 else T
+    _c04.append(H('c04_pair_d%d' % _d, 'k_c04_pair(%d);' % _d, tiers=tiers, timeout=1500 if _d <= 3 else 3000, mem_gb=10,
+                  unwind=max(9, _d + 1), inputs=[('a', 'u64'), ('c', 'u64')], replay='c04_pair', replay_const={'depth': _d},
+                  covers=['cell lacking its E neighbour', 'cell touching the north pole', 'edge neighbour in another base cell'],
+                  domain='depth %d: all cells a x all other cells c (%d^2 pairs)' % (_d, 12 * 4 ** _d)))
+for _d in (0, 1, 29):
+    for single in (0, 1):
+        _c04.append(H('c04_guard_d%d_%s' % (_d, 'one' if single else 'all'), 'k_c04_guard(%d, %s);' % (_d, 'true' if single else 'false'),
+                      tiers=Q, timeout=300, should_panic=True, inputs=[('a', 'u64'), ('k', 'u8')], replay='c04_guard',
+                      replay_const={'depth': _d, 'single': single}, never=['guard bypassed'],
+                      domain='depth %d, all cell numbers >= 12*4^depth' % _d))
+PROPS['C04'] = dict(
+    inject=[dict(host='src/nested/mod.rs', mod='verif_c04', parts=['props/c04.rs', 'kani/c04.rs'])],
+    harnesses=_c04,
+    functions=['Layer::neighbours', 'Layer::neighbour', 'Layer::inner_cell_neighbours', 'Layer::edge_cell_neighbours',
+               'Layer::neighbour_from_parts', 'Layer::neighbour_from_shifted_coos', 'Layer::{ncp,eqr,spc}_neighbour',
+               'MainWind::{from_offsets,offset_se,offset_sw,index}', 'MainWindMap'],
+    bounds={'quick': 'depths 0,1,2,3: every cell a and every other cell c of the depth (both symbolic, full range); guards at depths 0,1,29',
+            'thorough': 'all depths 0..=29 (a depth that exceeds the time cap makes the check exit 2, it is never counted as held)'},
+    outside='depths not listed for the tier',
+    assumptions=['plane oracle: integer vertex coordinates in units of 1/nside with the polar-cap identifications (harness/common/oracles.rs)'],
+)
